@@ -159,6 +159,7 @@ class C06(runner.Check):
 					return_references=r.chance(0.4), thread=r.chance(0.12),
 					seed_type=r.wchoice(["int", "numpy.int64", "numpy.int32"], [6, 1, 1]),
 					xview=r.wchoice(["contig", "strided"], [4, 1]),
+					verbose=r.chance(0.15),
 					args_as=r.choice(["tuple", "list"]))
 				if op["refs"] != "gen":
 					op["return_references"] = False
@@ -184,7 +185,8 @@ class C06(runner.Check):
 
 	# -- execution -----------------------------------------------------------
 	def _dls(self, model, X, args, op_or_mode, world, refs=None, batch_size=None,
-		return_references=False, refgen=None, seed_type="int", extra_ops=None):
+		return_references=False, refgen=None, seed_type="int", extra_ops=None,
+		verbose=False):
 		from tangermeme.deep_lift_shap import deep_lift_shap
 		mode = op_or_mode
 		kw = dict(target=world["target"], batch_size=batch_size,
@@ -204,6 +206,14 @@ class C06(runner.Check):
 				world["random_state"])
 		if extra_ops is not None:
 			kw["additional_nonlinear_ops"] = extra_ops
+		if verbose:
+			kw["verbose"] = True
+			kw["print_convergence_deltas"] = True
+			import contextlib, io as _io
+			with warnings.catch_warnings(), contextlib.redirect_stdout(_io.StringIO()), \
+					contextlib.redirect_stderr(_io.StringIO()):
+				warnings.simplefilter("ignore")
+				return deep_lift_shap(model, X, args=args, **kw)
 		with warnings.catch_warnings():
 			warnings.simplefilter("ignore")
 			return deep_lift_shap(model, X, args=args, **kw)
@@ -264,6 +274,7 @@ class C06(runner.Check):
 		nthreads0 = numba.get_num_threads()
 		perturbed = False
 		nontrivial = False
+		kept = []
 		try:
 			for oi, op in enumerate(case["ops"]):
 				kind = op["kind"]
@@ -404,7 +415,8 @@ class C06(runner.Check):
 								run = lambda: self._dls(shared, Xs, a_s, op["mode"], world,
 									refs=refs, batch_size=bs,
 									return_references=op["return_references"],
-									seed_type=op.get("seed_type", "int"))
+									seed_type=op.get("seed_type", "int"),
+									verbose=op.get("verbose", False))
 								itf = op.get("interfere")
 								if itf:
 									from engines.preempt import run_with_interference
@@ -447,6 +459,7 @@ class C06(runner.Check):
 					if isinstance(res, tuple):
 						res, got_refs = res
 					log.log("dls", oi, idx, bs, op["mode"], mw._tbytes(res))
+					kept.append((oi, res, mw._tbytes(res)))
 					want_shape = (len(idx), ns, 4, L) if op["mode"] == "raw" else \
 						(len(idx), 4, L)
 					if tuple(res.shape) != want_shape:
@@ -482,6 +495,11 @@ class C06(runner.Check):
 								break
 						if out.violations:
 							break
+			for oi_, obj, b in kept:
+				if mw._tbytes(obj) != b:
+					out.violate("earlier_result_mutated", "the tensor returned by op %d was "
+						"changed by a later call in the same session" % oi_, key={"kind": "mut"})
+					break
 			if mw._tbytes(X) != mw._tbytes(X0):
 				out.violate("input_modified", "X was modified by the session",
 					key={"kind": "X"})
